@@ -79,6 +79,7 @@ func (t *Type) ReadFrom(r io.Reader) (n int64, err error) {
 		}
 		return n1 + n2 + n3 + n4, nil
 	}
+	t.TargetName = nil
 	return n1 + n2 + n3, nil
 }
 
